@@ -31,6 +31,7 @@ package main
 import (
 	"fmt"
 	"sort"
+	"strings"
 
 	"github.com/9elements/converged-security-suite/v2/pkg/bootflow/bootengine"
 	"github.com/9elements/converged-security-suite/v2/pkg/bootflow/bootengine/validator"
@@ -227,7 +228,7 @@ func canonIssues(is []oissue) string {
 				}
 				return rr[a][1] < rr[b][1]
 			})
-			out[i] = oref{r.key, r.nomap, rr}
+			out[i] = oref{key: r.key, nomap: r.nomap, ranges: rr}
 		}
 		return out
 	}
@@ -273,11 +274,7 @@ func (f *hflow) oracle(c *gal.Ctx, idx int, res *runResult, stages []stageObs, s
 		if st.foreign != "" {
 			what += " (" + st.foreign + ")"
 		}
-		site := siteVAP
-		if st.kind == 1 {
-			site = siteVFC
-		}
-		c.OracleFail(idx, what, site, f.descr())
+		c.OracleFail(idx, what, siteOf(st.kind), f.descr())
 	}
 
 	// ----- walk the flow description -----
@@ -353,6 +350,91 @@ func (f *hflow) oracle(c *gal.Ctx, idx int, res *runResult, stages []stageObs, s
 	allMeasured := measuredBefore
 
 	// ----- issues validator -----
+	f.oracleVNI(c, idx, res, vni, expIssues, "ValidatorNoIssues")
+
+	if !exact {
+		// ranges outside the artifacts / exotic mappers: the bitmaps do not apply; the
+		// correspondence check does, and a second pass must repeat the first
+		c.Count("oracle-skipped-inexact")
+		first := map[passKind]int{}
+		for k, b := range stages {
+			j, seen := first[b.kind]
+			if !seen {
+				first[b.kind] = k
+				continue
+			}
+			a := stages[j]
+			if a.panicked == b.panicked && canonIssues(a.iss) == canonIssues(b.iss) && canonRefs(a.refs) == canonRefs(b.refs) && canonChain(a.chain) == canonChain(b.chain) {
+				c.OracleOK()
+				continue
+			}
+			what := fmt.Sprintf("%s returns %v %v %v (panicked: %v), the 1st run of this kind over the same log returned %v %v %v (panicked: %v)%s",
+				b.name(), b.iss, b.refs, b.chain, b.panicked, a.iss, a.refs, a.chain, a.panicked, blames[k].note)
+			c.OracleFail(idx, what, siteOf(b.kind), f.descr())
+		}
+		return
+	}
+
+	for k, st := range stages {
+		switch st.kind {
+		case pkVAP:
+			// ----- actors validator -----
+			f.oracleVAP(c, idx, rank, st, blames[k], expUnprot, emptyCodeStep)
+		case pkVFC:
+			// ----- final coverage -----
+			f.oracleVFC(c, idx, st, blames[k], allMeasured)
+		case pkSM:
+			// ----- what pcr0tool prints as "Measured/protected data" -----
+			f.oracleSM(c, idx, st, blames[k], allMeasured)
+		case pkALL:
+			// ----- the chain: the issues of the three validators, each complete, in the order of All() -----
+			f.oracleALL(c, idx, rank, res, st, blames[k], expUnprot, emptyCodeStep, allMeasured, expIssues)
+		}
+	}
+}
+
+func siteOf(k passKind) string {
+	switch k {
+	case pkVAP:
+		return siteVAP
+	case pkVFC:
+		return siteVFC
+	case pkSM:
+		return "pkg/bootflow/types/data.go:References.SortAndMerge (cmd/exp/pcr0tool/commands/validate_security/main.go: Measured/protected data)"
+	}
+	return "pkg/bootflow/bootengine/validator/validator.go:Validators.Validate"
+}
+
+func canonRefs(rs []oref) string {
+	out := make([]string, len(rs))
+	for i, r := range rs {
+		rr := append([][2]uint64(nil), r.ranges...)
+		sort.Slice(rr, func(a, b int) bool {
+			if rr[a][0] != rr[b][0] {
+				return rr[a][0] < rr[b][0]
+			}
+			return rr[a][1] < rr[b][1]
+		})
+		out[i] = fmt.Sprint(r.key, r.nomap, rr)
+	}
+	return strings.Join(out, ";")
+}
+
+func canonChain(ch []centry) string {
+	s := ""
+	for _, e := range ch {
+		if e.cls == 2 {
+			s += fmt.Sprint("log", e.step, e.id, ";")
+		} else {
+			s += fmt.Sprint(e.cls, canonIssues([]oissue{e.iss}))
+		}
+	}
+	return s
+}
+
+// ValidatorNoIssues (alone, or as the last part of the chain): exactly the failures
+// the flow description implies, in order
+func (f *hflow) oracleVNI(c *gal.Ctx, idx int, res *runResult, vni validator.Issues, expIssues []expIssue, who string) {
 	okVNI := len(vni) == len(expIssues)
 	for k := 0; okVNI && k < len(vni); k++ {
 		e := expIssues[k]
@@ -379,51 +461,110 @@ func (f *hflow) oracle(c *gal.Ctx, idx int, res *runResult, stages []stageObs, s
 	}
 	if okVNI {
 		c.OracleOK()
-	} else {
-		got := []string{}
-		for _, is := range vni {
-			got = append(got, fmt.Sprintf("step %d %v", is.StepIdx, is.Coords))
-		}
-		c.OracleFail(idx, fmt.Sprintf("ValidatorNoIssues does not report exactly the issues the flow implies: expected %v, got %v", expIssues, got), siteVNI, f.descr())
-	}
-
-	if !exact {
-		// ranges outside the artifacts / exotic mappers: the bitmaps do not apply; the
-		// correspondence check does, and a second pass must repeat the first
-		c.Count("oracle-skipped-inexact")
-		for k := 2; k < len(stages); k++ {
-			a, b := stages[k-2], stages[k]
-			if a.panicked == b.panicked && canonIssues(a.iss) == canonIssues(b.iss) {
-				c.OracleOK()
-				continue
-			}
-			what := fmt.Sprintf("%s returns %v (panicked: %v), pass 1 over the same log returned %v (panicked: %v)%s", b.name(), b.iss, b.panicked, a.iss, a.panicked, blames[k].note)
-			site := siteVAP
-			if b.kind == 1 {
-				site = siteVFC
-			}
-			c.OracleFail(idx, what, site, f.descr())
-		}
 		return
 	}
+	got := []string{}
+	for _, is := range vni {
+		got = append(got, fmt.Sprintf("step %d %v", is.StepIdx, is.Coords))
+	}
+	site := siteVNI
+	if who != "ValidatorNoIssues" {
+		site = siteOf(pkALL)
+	}
+	c.OracleFail(idx, fmt.Sprintf("%s does not report exactly the issues the flow implies: expected %v, got %v", who, expIssues, got), site, f.descr())
+}
 
-	for k, st := range stages {
-		if st.kind == 0 {
-			// ----- actors validator -----
-			f.oracleVAP(c, idx, rank, st, blames[k], expUnprot, emptyCodeStep)
-		} else {
-			// ----- final coverage -----
-			f.oracleVFC(c, idx, st, blames[k], allMeasured)
+// the merged measurements must denote exactly the measured bytes, artifact by artifact
+func (f *hflow) oracleSM(c *gal.Ctx, idx int, st stageObs, bl blame, allMeasured bitmap) {
+	fail := func(what string) {
+		c.OracleFail(idx, st.name()+": "+what+bl.note, siteOf(pkSM), f.descr())
+	}
+	if st.panicked {
+		fail("SortAndMerge of the measured references panicked on a well-formed log")
+		return
+	}
+	got := f.newBitmap()
+	for _, r := range st.refs {
+		var a *hart
+		for _, x := range f.arts {
+			if x.id == r.key {
+				a = x
+			}
+		}
+		if a == nil || (!r.nomap && !r.phys) {
+			fail(fmt.Sprintf("a merged reference %v points to no artifact of the flow / has a mapper no measurement used", r))
+			return
+		}
+		for _, x := range r.ranges {
+			lo, hi := x[0], x[1]
+			if r.phys {
+				base := fourGiB - a.size
+				if lo < base || hi > fourGiB {
+					fail(fmt.Sprintf("the merged reference %v leaves the image", r))
+					return
+				}
+				lo, hi = lo-base, hi-base
+			}
+			if hi < lo || hi > a.size {
+				fail(fmt.Sprintf("the merged reference %v leaves its artifact", r))
+				return
+			}
+			for k := lo; k < hi; k++ {
+				got[a.id][k] = true
+			}
 		}
 	}
+	if got.String() != allMeasured.String() {
+		fail(fmt.Sprintf("the merged measurements %v denote %s, measured were %s", st.refs, got, allMeasured))
+		return
+	}
+	c.OracleOK()
+}
+
+func (f *hflow) oracleALL(c *gal.Ctx, idx int, rank map[string]int, res *runResult, st stageObs, bl blame,
+	expUnprot map[int]bitmap, emptyCodeStep map[int]bool, allMeasured bitmap, expIssues []expIssue) {
+	if st.panicked {
+		c.OracleFail(idx, st.name()+": validator.All().Validate panicked on a well-formed log"+bl.note, siteOf(pkALL), f.descr())
+		return
+	}
+	// the order of All(): actors, final coverage, issues of the log
+	last := 0
+	inOrder := true
+	for _, e := range st.chain {
+		if e.cls < last {
+			inOrder = false
+		}
+		last = e.cls
+	}
+	if !inOrder {
+		c.OracleFail(idx, fmt.Sprintf("%s: the issues do not come in the order of validator.All() (actors, final coverage, issues of the log): %v%s", st.name(), st.chain, bl.note), siteOf(pkALL), f.descr())
+	} else {
+		c.OracleOK()
+	}
+	vap := stageObs{kind: pkVAP, pass: st.pass, idx: st.idx, iss: []oissue{}, inChain: true}
+	vfc := stageObs{kind: pkVFC, pass: st.pass, idx: st.idx, iss: []oissue{}, inChain: true}
+	for _, e := range st.chain {
+		switch e.cls {
+		case 0:
+			vap.iss = append(vap.iss, e.iss)
+		case 1:
+			vfc.iss = append(vfc.iss, e.iss)
+		}
+	}
+	f.oracleVAP(c, idx, rank, vap, bl, expUnprot, emptyCodeStep)
+	f.oracleVFC(c, idx, vfc, bl, allMeasured)
+	if bl.aliasing {
+		return // the issues of the log are not what a rewritten log is judged by
+	}
+	f.oracleVNI(c, idx, res, st.vni, expIssues, "validator.All().Validate (the part of ValidatorNoIssues)")
 }
 
 func (f *hflow) oracleVAP(c *gal.Ctx, idx int, rank map[string]int, st stageObs, bl blame,
 	expUnprot map[int]bitmap, emptyCodeStep map[int]bool) {
 	vapPanic, oVAP := st.panicked, st.iss
 	fail := func(known, what string) {
-		if st.pass > 1 || bl.aliasing {
-			what = st.name() + ": " + what + bl.note
+		if st.idx > 0 || st.inChain || bl.aliasing {
+			what = st.stageName() + ": " + what + bl.note
 		}
 		if bl.aliasing {
 			known = "" // a consequence of the rewritten log, never of a listed finding
@@ -496,8 +637,8 @@ func (f *hflow) oracleVAP(c *gal.Ctx, idx int, rank map[string]int, st stageObs,
 func (f *hflow) oracleVFC(c *gal.Ctx, idx int, st stageObs, bl blame, allMeasured bitmap) {
 	vfcPanic, oVFC := st.panicked, st.iss
 	fail := func(known, what string) {
-		if st.pass > 1 || bl.aliasing {
-			what = st.name() + ": " + what + bl.note
+		if st.idx > 0 || st.inChain || bl.aliasing {
+			what = st.stageName() + ": " + what + bl.note
 		}
 		if bl.aliasing {
 			known = "" // a consequence of the rewritten log, never of a listed finding
